@@ -617,9 +617,12 @@ func msgBundleFor(reg *template.Registry, r *RNG) string {
 }
 
 func genC02exec(g *G) {
-	n := g.N(700, 10000)
+	n := g.N(1500, 22000)
 	bg := newBundleGen(g.R, bundleOpts{msgs: true, directives: true, calls: true, ij: true})
 	genBundles(g, bg, n, false)
+	// a stream without print directives: Spec.render leaves directives to C03/C16, so these bundles are fully specified
+	bg2 := newBundleGen(g.R.Fork(), bundleOpts{msgs: true, directives: false, calls: true, ij: true})
+	genBundles(g, bg2, n/2, false)
 	g.Exhaustive = false
 }
 
@@ -781,7 +784,7 @@ func hostileValueNoBigNumber(r *RNG) interface{} {
 }
 
 func genC06total(g *G) {
-	n := g.N(650, 9000)
+	n := g.N(1300, 18000)
 	bg := newBundleGen(g.R, bundleOpts{msgs: true, directives: true, calls: true, ij: true, illTyped: 25})
 	genBundles(g, bg, n, true)
 	// well-typed programs, hostile data
